@@ -8,7 +8,7 @@ RULE = ("Seeded plans: routine with target networks x tau in {0, 0.005, 0.3, 1} 
         "harness or created by the routine x resume. Target / online leaves are snapshotted at every env event and logged update: on a "
         "scheduled soft update T_new = tau*O_new + (1-tau)*T_old (4e-6 relative; exact for tau in {0,1}); on a hard update T_new == source "
         "bitwise (TD7 chain link by link); on every other interval T is bitwise unchanged; no aliasing. "
-        "Distinct = distinct (adapter, configuration vector, fault kinds).")
+        "Additional plans (indices beyond the earlier tier sizes): supplied target networks whose parameters DIFFER from the online networks (scaled clones, as after a restore from an older state), optionally only one of the two targets supplied, fresh call or resume chain - a spurious copy or re-clone of a target is only visible when target != online. " "Distinct = distinct (adapter, configuration vector, fault kinds).")
 REAL = ["train_* routines", "soft_target_net_update / hard_target_net_update", "nnx.clone", "optimisers"]
 STUB = ["environment (SimEnv)", "sampler", "logger (ProbeLogger)"]
 ASSUMPTIONS = ["targets created inside a routine are observable from their first record_epoch; earlier only frame conditions on harness-held modules apply",
